@@ -7,7 +7,7 @@
 From Coq Require Import List Bool Arith NArith Permutation Sorted.
 Import ListNotations.
 From DDP Require Import Det.Sorting Det.SortingProofs Det.Sites Det.SitesProofs Det.C16Model Det.C16ModelProofs
-  Det.SiteIndex Gen.Sites Det.SiteIndexProofs Det.NonVacuity.
+  Det.ExprTree Det.ExprTreeProofs Det.SiteIndex Gen.Sites Det.SiteIndexProofs Det.NonVacuity.
 
 (* ---------------------------------------------------------------- sorting *)
 (* Go's small-slice insertion sort returns a sorted permutation for every strict weak order *)
@@ -119,6 +119,25 @@ Theorem C16_site_call_args_fixed :
     call_stmt_fixed params mr mt = call_stmt_fixed params mr' mt'.
 Proof. exact call_stmt_fixed_invariant. Qed.
 Print Assumptions C16_site_call_args_fixed.
+
+(* whole statements with nested calls: every node whose children live in a map is walked in some order, the
+   resolver pass and the typechecker pass independently *)
+Theorem C16_stmt_report_refuted :
+  exists e e1 e2, reorder e e1 /\ reorder e e2 /\ stmt_report2 e1 e1 <> stmt_report2 e2 e2.
+Proof. exact stmt_report_refuted. Qed.
+Print Assumptions C16_stmt_report_refuted.
+
+Theorem C16_stmt_report_partial :
+  forall e er et, reorder e er -> reorder e et ->
+    snd (stmt_report2 er et) = snd (stmt_report e) /\
+    (forall d, fst (stmt_report2 er et) = Some d -> In d (rdiags e ++ tdiags e)).
+Proof. exact stmt_report_partial. Qed.
+Print Assumptions C16_stmt_report_partial.
+
+Theorem C16_stmt_report_fixed :
+  forall e er et, all_ordered e = true -> reorder e er -> reorder e et -> stmt_report2 er et = stmt_report e.
+Proof. exact stmt_report_fixed. Qed.
+Print Assumptions C16_stmt_report_fixed.
 
 (* ---------------------------------------------------------------- generic struct alias validation *)
 Theorem C16_site_unify_report_refuted :
